@@ -89,6 +89,14 @@ def declaredInplace : List (String × String) := [
   ("StandardQst", "_set_coeffs"), ("StandardPovmt", "_set_coeffs"), ("StandardQpt", "_set_coeffs"),
   ("StandardQmpt", "_set_coeffs")]
 
+/-- functions the may-analysis reports although they write into a fresh array only: the written name is re-bound to a
+copy (`copy.deepcopy(var)` in the branch that writes; `matrix = np.where(…)`) before the write — the analysis is
+flow-insensitive -/
+def declaredParamWriters : List (String × String) := [
+  ("quara/objects/gate.py", "calc_proj_eq_constraint_with_var"),
+  ("quara/objects/state.py", "calc_proj_eq_constraint_with_var"),
+  ("quara/utils/matrix_util.py", "truncate_and_normalize")]
+
 def writerOk (e : String × String × List String) : Bool :=
   e.2.1 == "__init__" || declaredMutators.contains (e.1, e.2.1)
 
